@@ -169,6 +169,74 @@ static void case_keys(uint64_t idx, vh_rng *r)
     }
 }
 
+/* exact-extent buffer of any size: [data][PROT_NONE page], data ends at the guard page */
+#include <sys/mman.h>
+typedef struct { uint8_t *map; size_t span; uint8_t *p; } bigbuf;
+static uint8_t *big_alloc(bigbuf *b, size_t n)
+{
+    b->span = (n + 4095) / 4096 * 4096 + 4096;
+    b->map = mmap(NULL, b->span + 4096, PROT_READ | PROT_WRITE, MAP_PRIVATE | MAP_ANONYMOUS, -1, 0);
+    if (b->map == MAP_FAILED) { fprintf(stderr, "big_alloc failed\n"); exit(2); }
+    mprotect(b->map + b->span, 4096, PROT_NONE);
+    b->p = b->map + b->span - n;
+    memset(b->map, 0xC9, b->span - n);
+    return b->p;
+}
+static int big_check(bigbuf *b, size_t n) { size_t i, k = b->span - n; for (i = k > 512 ? k - 512 : 0; i < k; ++i) if (b->map[i] != 0xC9) return 1; return 0; }
+static void big_free(bigbuf *b) { munmap(b->map, b->span + 4096); }
+
+/* large single CTR / parallel calls (64 KiB .. 300 KiB) in exact-extent guarded buffers, in place or not,
+   optionally after a partial call so that buffered keystream is pending */
+static void case_big(uint64_t idx, vh_rng *r)
+{
+    const vh_cipher *c = &vh_ciphers[idx % CIPH_N];
+    int be = (int)((idx / CIPH_N) % (uint64_t)(maxbe[c->id] + 1)), par = (int)((idx / 9) & 1), inplace = (int)((idx / 18) & 1), pre = (int)vh_below(r, 3) ? (int)(1 + vh_below(r, 200)) : 0, dec = 0, ra = 1, rb = 1;
+    size_t len = 65536 + vh_below(r, 240000), q; bigbuf bi, bo, bt; uint8_t key[48], small[256], s2[256], *in, *out, *tw = NULL, *ref, *src;
+    vh_handle A, Bh; char what[200], key_[200];
+    if (par) { len = len / c->bb * c->bb; pre = 0; dec = c->par_decrypt && vh_below(r, 2); }
+    vh_rand_bytes(r, key, 48); vh_rand_bytes(r, small, sizeof(small));
+    src = malloc(len * 2 + 16); ref = malloc(len + 16);
+    for (q = 0; q < 2 * len; ++q) src[q] = (uint8_t)(q * 131 + (q >> 9) + small[q & 255]);
+    memset(&A, 0, sizeof(A)); memset(&Bh, 0, sizeof(Bh));
+    vh_set_cap(be);
+    snprintf(key_, sizeof(key_), "C09:%s_%s:%s:large-call", c->name, par ? "parallel" : "ctr", vh_backend_names[be]); vh_set_crash_key(key_);
+    in = big_alloc(&bi, len); memcpy(in, src, len);
+    if (inplace) out = in; else { out = big_alloc(&bo, len); memset(out, 0xEE, len); }
+    if (par) {
+        c->par_init(&A); c->par_init(&Bh); c->par_set_key(&A, key, 16, 6, MANTIS_ENCRYPT); c->par_set_key(&Bh, key, 16, 6, MANTIS_ENCRYPT);
+        if (c->id == CIPH_MANTIS) { tw = big_alloc(&bt, len); memcpy(tw, src + len, len); }
+        vh_call_begin("parallel large call"); ra = (dec ? c->par_decrypt : c->par_encrypt)(out, in, tw, len, &A); vh_call_end();
+        rb = (dec ? c->par_decrypt : c->par_encrypt)(ref, src, src + len, len, &Bh);
+        c->par_cleanup(&A); c->par_cleanup(&Bh);
+    } else {
+        c->ctr_init(&A); c->ctr_init(&Bh); c->ctr_set_key(&A, key, 16, 7); c->ctr_set_key(&Bh, key, 16, 7);
+        c->ctr_set_counter(&A, small, c->bb); c->ctr_set_counter(&Bh, small, c->bb);
+        if (pre) { c->ctr_encrypt(s2, small, (size_t)pre, &A); c->ctr_encrypt(s2, small, (size_t)pre, &Bh); }
+        vh_call_begin("ctr large call"); ra = c->ctr_encrypt(out, in, len, &A); vh_call_end();
+        { size_t off = 0; while (off < len) { size_t n = len - off < 1000 ? len - off : 1000; rb &= c->ctr_encrypt(ref + off, src + off, n, &Bh); off += n; } }   /* reference: many small calls */
+        /* the stream position afterwards must agree as well */
+        c->ctr_encrypt(s2, small, 100, &A); c->ctr_encrypt(small, small, 100, &Bh);
+        if (memcmp(s2, small, 100)) ra = -7;
+        c->ctr_cleanup(&A); c->ctr_cleanup(&Bh);
+    }
+    VH_COUNT("guarded_calls", 1); VH_COUNT("large_guarded_calls", 1); VH_MAXC("max_guarded_call_bytes", len);
+    { int cfg[6] = {c->id + 400, be, par, inplace, pre, (int)len}; if (vh_distinct(vh_hash(cfg, sizeof(cfg), VH_HASH_INIT))) VH_COUNT("distinct_placement_configurations", 1); }
+    what[0] = 0;
+    if (ra == -7) snprintf(what, sizeof(what), "stream position after the large call differs from the same data sent in small calls");
+    else if (ra != 1 || rb != 1) snprintf(what, sizeof(what), "valid call rejected");
+    else if (memcmp(out, ref, len)) { for (q = 0; q < len && out[q] == ref[q]; ++q) { } snprintf(what, sizeof(what), "%s large call differs from small separate calls at byte %lu", inplace ? "in-place" : "out-of-place", (unsigned long)q); }
+    else if (!inplace && memcmp(in, src, len)) snprintf(what, sizeof(what), "input buffer modified");
+    else if (big_check(&bi, len) || (!inplace && big_check(&bo, len))) snprintf(what, sizeof(what), "canary before the buffer damaged");
+    if (what[0]) {
+        char d[400], k2[300];
+        snprintf(d, sizeof(d), "{\"object\":\"%s_%s\",\"backend\":\"%s\",\"bytes\":%lu,\"in_place\":%d,\"bytes_consumed_before\":%d,\"problem\":\"%s\"}", c->name, par ? "parallel" : "ctr", vh_backend_names[be], (unsigned long)len, inplace, pre, what);
+        snprintf(k2, sizeof(k2), "C09:%s_%s:%s:%s", c->name, par ? "parallel" : "ctr", vh_backend_names[be], inplace ? "large-in-place-call-changes-result" : "large-call-changes-result");
+        viol(k2, idx, d);
+    }
+    big_free(&bi); if (!inplace) big_free(&bo); if (tw) big_free(&bt);
+    free(src); free(ref);
+}
+
 /* ---- CTR objects ---- */
 static uint8_t BIG[3][4200];
 static void case_ctr(uint64_t idx, vh_rng *r)
@@ -293,6 +361,7 @@ static void one_case(uint64_t idx)
     vh_rng_seed(&r, vh_seed, 0x09, idx);
     snprintf(d, sizeof(d), "{\"driver\":\"drv_buf\",\"prop\":\"C09\",\"mode\":\"c09\",\"seed\":%llu,\"case\":%llu,\"variant\":\"%s\"}", (unsigned long long)vh_seed, (unsigned long long)idx, vh_variant);
     vh_case_begin(idx, "C09", d);
+    if (idx % 1000 == 999) { case_big(idx / 1000, &r); return; }
     switch (idx & 3) {
     case 0: case_single(idx >> 2, &r); break;
     case 1: case_keys(idx >> 2, &r); break;
